@@ -421,6 +421,24 @@ def validator_guards(ctx, prog, rid):
 
 
 
+
+def hot_filter_validates(ctx, prog, rid):
+    """C04.R1 / C06.R3: filter_hot_knn_results_to_canonical keeps a candidate only on the Match edge of canonical_vector_state applied to its own mirror entry
+    (token equality AND payload digest) — not on token equality alone."""
+    fh = ctx.body(rid, 'TieredEngine::filter_hot_knn_results_to_canonical')
+    cl = [x for x in prog.family(fh) if x.kind == 'Closure' and x.calls_to('TieredEngine::canonical_vector_state')]
+    okf = False
+    if cl:
+        c0 = cl[0]
+        cof = flow.Origin(c0)
+        v = c0.calls_to('TieredEngine::canonical_vector_state')[0]
+        me = match_edges(c0, v, cof)
+        somes = [i for i, blk in enumerate(c0.blocks) for st in blk['s'] if st.get('rv', {}).get('k') == 'agg' and st['rv'].get('variant') == 'Some' and st['pl']['l'] == 0]
+        r0 = c0.reach([0], avoid_edges=me)
+        src = flow.render(cof.of_operand(v.args[2]))
+        okf = bool(me) and bool(somes) and not any(x in r0 for x in somes) and 'peek_with_coherence' in src
+    ctx.inst(rid, fh.short, 'keeps a candidate only on the Match edge of its own mirror entry', okf, '')
+
 def run(ctx, prog):
     ctx.not_decided = ['collision behaviour of the 128-bit integrity digest', 'operation histories / configurations (cache strategy × capacity × drains)']
     # ------------------------------------------------------------------ R1
@@ -528,19 +546,7 @@ def run(ctx, prog):
                  '%s calls %s at %s: the value comes from the cache / recent-write mirror without the canonical token + digest check (canonical_vector_state), which only the '
                  'TieredEngine read paths apply — after a bulk load that bypasses the mirror, or with a stale / poked entry, it is not the canonical latest version'
                  % (fn_, flow.short(c.orig or c.callee), c.loc))
-    fh = ctx.body('C04.R1', 'TieredEngine::filter_hot_knn_results_to_canonical')
-    cl = [x for x in prog.family(fh) if x.kind == 'Closure' and x.calls_to('TieredEngine::canonical_vector_state')]
-    okf = False
-    if cl:
-        c0 = cl[0]
-        cof = flow.Origin(c0)
-        v = c0.calls_to('TieredEngine::canonical_vector_state')[0]
-        me = match_edges(c0, v, cof)
-        somes = [i for i, blk in enumerate(c0.blocks) for st in blk['s'] if st.get('rv', {}).get('k') == 'agg' and st['rv'].get('variant') == 'Some' and st['pl']['l'] == 0]
-        r0 = c0.reach([0], avoid_edges=me)
-        src = flow.render(cof.of_operand(v.args[2]))
-        okf = bool(me) and bool(somes) and not any(x in r0 for x in somes) and 'peek_with_coherence' in src
-    ctx.inst('C04.R1', fh.short, 'keeps a candidate only on the Match edge of its own mirror entry', okf, '')
+    hot_filter_validates(ctx, prog, 'C04.R1')
     # cached query results
     for fn in ('TieredEngine::knn_search_with_ef_detailed_scoped', 'TieredEngine::knn_search_batch_with_ef_detailed_scoped', 'TieredEngine::knn_search_with_timeouts_with_ef_scoped'):
         for b in prog.family(ctx.body('C04.R1', fn)):
